@@ -769,6 +769,7 @@ func runDoOnce(c Case, try int) (res obs.Result, raced bool) {
 			seqs[i] = a.Seq
 		}
 		retryOracle(&res, "cluster.go:do", !write, !disableRetry, dlog.Calls(), ticks, seqs)
+		attemptsOracleDo(&res, "cluster.go:do", strings.Join(argv, " "), dlog.Calls())
 	}
 	if *propFlag == "C03" && write {
 		n := 0
@@ -807,6 +808,21 @@ func retryOracle(res *obs.Result, site string, retryable, retryOn bool, cons []r
 		}
 		if why != "" && res.Oracle == "" {
 			res.Oracle, res.Site, res.Class = fmt.Sprintf("re-send after reply %d (%s): %s", i, ticks[i], why), site, "retry-policy"
+		}
+	}
+}
+
+// attemptsOracleDo: clusterClient.do keeps one attempt counter per call and advances it with every retry it grants:
+// the consultations made for the command carry 1, 2, 3, … (every consultation but the last was followed by a re-send).
+func attemptsOracleDo(res *obs.Result, site, cmd string, cons []ro.Consult) {
+	n := 0
+	for _, c := range cons {
+		if c.Cmd != cmd {
+			continue
+		}
+		n++
+		if c.Attempts != n && res.Oracle == "" {
+			res.Oracle, res.Site, res.Class = fmt.Sprintf("consultation %d of RetryDelay for %q carried attempts=%d", n, cmd, c.Attempts), site, "attempts-not-advanced"
 		}
 	}
 }
